@@ -50,6 +50,22 @@ Addition after the seeded-change round: block names are drawn from a pool with a
 resolved with lstrip('_not_') instead of removeprefix (seeded C15-s2). Sources may carry an
 on_output EventCond event that fails with the non-fatal EdzedUnknownEvent for one edge.
 
+Additions after the third seeded-change round (seeded/C15-s7, s8, s9), all for the clauses
+"the start fails with an error / already started blocks are stopped" at particular moments:
+ * sources with an asynchronous clean-up that takes virtual time (circlib.AStop, 0.1-1 s) in
+   60 % of the invalid runs; pass-through counters of start(), stop() and stop_async() per
+   block: after a failing start exactly the blocks whose start() returned get one stop() and
+   at most one stop_async(), nobody else any (caught: clean-up set computed from all async
+   blocks instead of the started ones, s9);
+ * in half of the invalid runs a second stop request (abort(error), abort(CancelledError),
+   shutdown() from another task) lands inside the clean-up window of the failed start; the
+   clean-up must complete and run_forever() must end with the start error, not as cancelled
+   (caught: abort() cancels the simulation task on every call, s7);
+ * after an explicit finalize() has failed the application goes on: finalize() again (must
+   fail again), start (must fail), or add the missing block and finalize()/start (everything
+   must be resolved: Event.dest, filter control blocks, structure) (caught: the resolver
+   forgets the failing and all later registrations, s8).
+
 Findings on the pinned tree (genuine, own signatures):
  * C15/names-unresolved/after-explicit-finalize and
    C15/start-failed/shortcut-in-filter-after-explicit-finalize (one root cause): only
@@ -117,7 +133,7 @@ edzed = seams.install()
 
 PROP = 'C15'
 LEVEL = 'exploration'
-RUNS = {'quick': 20000, 'thorough': 900000}
+RUNS = {'quick': 18000, 'thorough': 800000}
 CHUNK = 400
 RULE = ("one run = one circuit of the C01 generator (1-8 library CBlocks over 1-4 sources, every "
         "reference style, groups of size 0-3, repeated references, shortcuts to S- and "
@@ -144,7 +160,11 @@ REACH_EXPECTED = ['explicit_finalize', 'shortcut_shared', 'shortcut_in_filter_on
                   'start_failed_nothing_started', 'mod_after_explicit_finalize',
                   'mod_first_step', 'mod_during_async_init', 'mod_running',
                   'mod_after_failed_start', 'mod_after_stop', 'connect_of_unconnected_block',
-                  'shortcut_to_name_beginning_like_not', 'nonfatal_unknown_event_from_output_event']
+                  'shortcut_to_name_beginning_like_not', 'nonfatal_unknown_event_from_output_event',
+                  'second_stop_request_during_cleanup_of_failed_start',
+                  'start_failed_after_async_block_started',
+                  'start_failed_before_async_block_started',
+                  'second_finalize_failed_again', 'missing_block_added_after_failed_finalize']
 ASSUMPTIONS = [
     "which of 'construction', 'explicit finalize()' or 'start' reports an invalid reference is "
     "left free (the property says 'construction or the start')",
@@ -250,6 +270,12 @@ def gen(rng, tier, index=0):
     need_fz = forced_mod is not None and forced_mod[1] == 'connect_unconnected'
     spec = circlib.gen_spec(rng, max_cblocks=6 if tier == 'quick' else 8,
                             ainit=True if need_ai else None)
+    if rng.random() < (0.6 if invalid is not None else 0.15):
+        # sources with an asynchronous clean-up that takes virtual time
+        for i in range(rng.choice([1, 1, 2])):
+            spec['sources'].append({'name': f"as{i}", 'kind': 'astop', 'dom': 'bool',
+                                    'init': rng.random() < 0.5, 'fed': False, 'events': [],
+                                    'dur': rng.choice([0.1, 0.3, 1.0])})
     decorate(rng, spec, want_fz=True if need_fz else None)
     circlib.finish_spec(rng, spec)
     ops = circlib.gen_ops(rng, spec, max_bursts=5)
@@ -291,7 +317,16 @@ def gen(rng, tier, index=0):
         inv = {'cls': invalid[0], 'variant': invalid[1], 'at': at,
                'a': rng.choice(names), 'b': rng.choice(names), 'c': rng.choice(cbn)}
     plan = {'knobs': knobs, 'spec': spec, 'ops': ops, 'pre': pre, 'explicit_finalize': explicit,
-            'storage': rng.random() < 0.5, 'invalid': inv, 'mods': mods}
+            'storage': rng.random() < 0.5, 'invalid': inv, 'mods': mods,
+            'second_stop': None, 'after_failed_finalize': 'stop'}
+    if inv is not None:
+        if rng.random() < 0.5:
+            # a second stop request while the clean-up of the failed start is in progress
+            plan['second_stop'] = {'frac': rng.choice([0.0, 0.1, 0.5, 0.9]),
+                                   'how': rng.choice(['abort', 'abort_cancel', 'shutdown'])}
+        # what the application does after an explicit finalize() has failed
+        plan['after_failed_finalize'] = rng.choice(
+            ['stop', 'finalize_again', 'start', 'repair_finalize', 'repair_start'])
     # names from a pool with awkward ones (beginning with the characters of '_not_', prefixes
     # and suffixes of each other) for a part of the blocks
     circlib.rename_plan(rng, plan, prob=rng.choice([0.0, 0.4, 0.8, 1.0]))
@@ -320,10 +355,17 @@ def inject(sim, inv):
         else:
             edzed.FuncBlock('bad', func=circlib.f_pack).connect(a, zz='nosuch')
     elif cls == 'unknown_event_dest':
-        edzed.Input('bad', initdef=0, on_output=edzed.Event('nosuch'))
+        evobj = edzed.Event('nosuch')
+        sim.bad = {'events': [('bad', {'dest': 'nosuch', 'etype': 'put', 'byname': True,
+                                       'filters': []}, evobj, [])]}
+        sim.bad['block'] = edzed.Input('bad', initdef=0, on_output=evobj)
     elif cls == 'unknown_filter':
         flt = edzed.IfOutput('nosuch') if var == 0 else edzed.DataEdit.add_output('k', 'nosuch')
-        edzed.Input('bad', initdef=0, on_output=edzed.Event(a, 'put', efilter=flt))
+        evobj = edzed.Event(a, 'put', efilter=flt)
+        desc = ['ifo', 'n', 'nosuch'] if var == 0 else ['addout', 'k', 'n', 'nosuch']
+        sim.bad = {'events': [('bad', {'dest': a, 'etype': 'put', 'byname': True,
+                                       'filters': [desc]}, evobj, [flt])]}
+        sim.bad['block'] = edzed.Input('bad', initdef=0, on_output=evobj)
     elif cls == 'foreign_connect':
         if var == 0:
             edzed.Or('bad').connect(a, sim.spare)
@@ -469,6 +511,7 @@ class Life:
     def __init__(self):
         self.started = {}
         self.stopped = {}
+        self.stop_async = {}
         self.wrapped = set()
 
     def wrap(self, blk):
@@ -484,6 +527,13 @@ class Life:
             self.stopped[name] = self.stopped.get(name, 0) + 1
             orig_stop()
         blk.start, blk.stop = start, stop
+        if isinstance(blk, edzed.AddonAsync) and blk.has_method('stop_async'):
+            orig_sa = blk.stop_async
+
+            async def stop_async():
+                self.stop_async[name] = self.stop_async.get(name, 0) + 1
+                await orig_sa()
+            blk.stop_async = stop_async
 
     def install_base(self):
         life = self
@@ -945,7 +995,7 @@ def execute(plan, trace=False):
         state = {'stopping': False, 'resolved': False, 'started': False, 'failed': False}
         ainit = [s for s in spec['sources'] if s['kind'] == 'ainit']
         mods = plan.get('mods', [])
-        valid = inv is None
+        state['valid'] = inv is None
 
         # static reach probes of the decoration
         connect_nots = set()
@@ -981,7 +1031,7 @@ def execute(plan, trace=False):
                     chk.attempt(m['what'], instant)
 
         def qhook():
-            if state['stopping'] or not valid:
+            if state['stopping'] or not state['valid']:
                 return
             if circuit.is_finalized() and state['started']:
                 chk.check_structure('idle', True)
@@ -999,6 +1049,39 @@ def execute(plan, trace=False):
                 return
             run.fired('reach:mod_during_async_init')
             chk.attempt(m['what'], 'async_init')
+
+        info = {'simtask': None, 'tasks': []}
+        astop = [x for x in spec['sources'] if x['kind'] == 'astop']
+
+        def repairable():
+            if inv is None or getattr(sim, 'bad', None) is None:
+                return False
+            if inv['cls'] not in ('unknown_event_dest', 'unknown_filter'):
+                return False
+            for x in spec['sources']:
+                if x['name'] == inv['a'] and any(ev.get('cond') for ev in x.get('events', [])):
+                    return False    # 'bad' sends a 'put' to it while the circuit starts
+            return True
+
+        def do_second(how):
+            """A second stop request; only interesting while the clean-up is in progress."""
+            simtask = info['simtask']
+            if simtask is None or simtask.done() or circuit.error is None:
+                return
+            run.fired('reach:second_stop_request_during_cleanup_of_failed_start')
+            run.log('second-stop', how)
+            run.beh('second-stop', how)
+            if how == 'abort':
+                circuit.abort(RuntimeError('second stop request'))
+            elif how == 'abort_cancel':
+                circuit.abort(asyncio.CancelledError('second stop request'))
+            else:
+                async def shut():
+                    try:
+                        await circuit.shutdown()
+                    except Exception:   # pylint: disable=broad-except
+                        pass            # the error of the failed start, re-raised
+                info['tasks'].append(asyncio.ensure_future(shut(), loop=run.loop))
 
         def failed_start(err):
             """Oracle of a failing start."""
@@ -1021,6 +1104,20 @@ def execute(plan, trace=False):
                                 else 'C15/failed-start/stop-count',
                                 f"{name}: start() returned {st}x, stop() called {sp}x after the "
                                 f"start failed with {cerr(cause)}")
+                sa = life.stop_async.get(name, 0)
+                if sa > (1 if st else 0):
+                    run.violate('C15/failed-start/stop-count',
+                                f"{name}: start() returned {st}x, stop_async() called {sa}x after "
+                                f"the start failed with {cerr(cause)}")
+            simtask = info['simtask']
+            if simtask is not None and simtask.done() and simtask.cancelled():
+                run.violate('C15/failed-start/task-cancelled-instead-of-error',
+                            f"the start failed with {cerr(cause)}, but run_forever() ended as "
+                            "cancelled: the error of the failing start is lost")
+            if astop and any(life.started.get(x['name']) for x in astop):
+                run.fired('reach:start_failed_after_async_block_started')
+            if astop and any(not life.started.get(x['name']) for x in astop) and n_started:
+                run.fired('reach:start_failed_before_async_block_started')
             if inv is not None and n_started and (inv['cls'], inv['variant']) in PIN_NOTHING_STARTED:
                 run.violate(f"C15/invalid-detected-late/{inv['cls']}-{inv['variant']}",
                             f"{inv['cls']} (variant {inv['variant']}): a reference by name of the "
@@ -1038,22 +1135,64 @@ def execute(plan, trace=False):
                 try:
                     circuit.finalize()
                 except Exception as err:    # pylint: disable=broad-except
-                    if valid:
+                    if state['valid']:
                         run.violate(f"C15/finalize-failed/{type(err).__name__}",
                                     f"finalize() of a valid circuit raised {cerr(err)}")
-                    else:
-                        run.fired('reach:invalid_detected_at_explicit_finalize')
-                        run.log('invalid', inv['cls'], inv['variant'], 'finalize', cerr(err))
-                        run.beh('invalid', inv['cls'], inv['variant'], 'finalize')
-                        istate['stage'] = 'finalize'
-                    return
-                if valid:
-                    chk.check_structure('finalized', False)
-                do_mods('finalized')
+                        return
+                    run.fired('reach:invalid_detected_at_explicit_finalize')
+                    run.log('invalid', inv['cls'], inv['variant'], 'finalize', cerr(err))
+                    run.beh('invalid', inv['cls'], inv['variant'], 'finalize')
+                    istate['stage'] = 'finalize'
+                    state['failed'] = True
+                    # the circuit is not finalized; what does the application do next?
+                    mode = plan.get('after_failed_finalize', 'stop')
+                    run.beh('after-failed-finalize', mode)
+                    if mode == 'stop':
+                        return
+                    if mode.startswith('repair') and not repairable():
+                        mode = 'finalize_again'
+                    if mode.startswith('repair'):
+                        # the missing block is added: now everything must get resolved
+                        run.fired('reach:missing_block_added_after_failed_finalize')
+                        nb = edzed.Input('nosuch', initdef=0)
+                        life.wrap(nb)
+                        sim.blocks['nosuch'] = nb
+                        sim.blocks['bad'] = sim.bad['block']
+                        sim.events.extend(sim.bad['events'])
+                        state['valid'] = True
+                        if mode == 'repair_finalize':
+                            try:
+                                circuit.finalize()
+                            except Exception as err2:    # pylint: disable=broad-except
+                                run.violate(f"C15/finalize-failed/after-repair/{type(err2).__name__}",
+                                            "the missing block was added after a failed "
+                                            f"finalize(), the next finalize() raised {cerr(err2)}")
+                                return
+                            chk.check_structure('finalized-after-repair', False)
+                    elif mode == 'finalize_again':
+                        try:
+                            circuit.finalize()
+                        except Exception as err2:    # pylint: disable=broad-except
+                            run.fired('reach:second_finalize_failed_again')
+                            run.log('invalid', 'second finalize', cerr(err2))
+                        else:
+                            run.violate(
+                                f"C15/invalid-accepted/second-finalize/{inv['cls']}-{inv['variant']}",
+                                f"finalize() failed with {cerr(err)}; nothing was changed, but a "
+                                "second finalize() succeeded")
+                    # ... and goes on to start the circuit
+                else:
+                    if state['valid']:
+                        chk.check_structure('finalized', False)
+                    do_mods('finalized')
             simtask = asyncio.create_task(circuit.run_forever())
+            info['simtask'] = simtask
+            sec = plan.get('second_stop')
+            if sec and not state['valid'] and astop:
+                run.at(min(a['dur'] for a in astop) * sec['frac'], do_second, sec['how'])
             await asyncio.sleep(0)
             state['started'] = True
-            if valid and circuit.is_finalized() and circuit.error is None:
+            if state['valid'] and circuit.is_finalized() and circuit.error is None:
                 chk.check_structure('first_step', True)
             if circuit.is_finalized() or circuit.error is not None:
                 do_mods('first_step')
@@ -1072,11 +1211,11 @@ def execute(plan, trace=False):
                 await circuit.wait_init()
             except edzed.EdzedInvalidState as err:
                 cause = circuit.error
-                if valid and sim.is_instability(cause):
+                if state['valid'] and sim.is_instability(cause):
                     verdict = sim.judge_abort(cause)
                     if verdict:
                         run.violate(verdict[0], 'start-up burst: ' + verdict[1])
-                elif valid:
+                elif state['valid']:
                     sig = f"C15/start-failed/{type(cause).__name__}"
                     if explicit and filter_only and isinstance(cause, edzed.EdzedInvalidState):
                         sig = 'C15/start-failed/shortcut-in-filter-after-explicit-finalize'
@@ -1094,14 +1233,14 @@ def execute(plan, trace=False):
                     run.violate('C15/failed-start/task-still-running',
                                 "wait_init() raised but the simulation task is not finished")
                 return
-            if not valid:
+            if not state['valid']:
                 run.violate(f"C15/invalid-accepted/{inv['cls']}-{inv['variant']}",
                             f"the invalid construction {inv['cls']} (variant {inv['variant']}, "
                             f"a={inv['a']}, b={inv['b']}, c={inv['c']}) was accepted and the "
                             "circuit started")
             sim.inited = True
             sim.evals_done()
-            if valid:
+            if state['valid']:
                 sim.check_idle('wait_init')
                 chk.check_structure('wait_init', True)
             for k, op in enumerate(plan['ops']):
@@ -1110,7 +1249,7 @@ def execute(plan, trace=False):
                 do_mods('running', k)
                 kind = op['op']
                 if kind == 'send':
-                    if valid:
+                    if state['valid']:
                         chk.checked_send(op)
                     else:
                         sim.send(op)
@@ -1133,11 +1272,11 @@ def execute(plan, trace=False):
             except Exception as exc:    # pylint: disable=broad-except
                 err = exc
             run.log('stopped', cerr(err))
-            if err is not None and valid:
+            if err is not None and state['valid']:
                 verdict = sim.judge_abort(err)
                 if verdict:
                     run.violate(*verdict)
-            if valid:
+            if state['valid']:
                 chk.check_structure('stopped', True)
             do_mods('stopped')
 
@@ -1148,7 +1287,7 @@ def execute(plan, trace=False):
             if isinstance(run.main_exc, PlanError):
                 raise run.main_exc
             raise RuntimeError(f"driver failed: {circlib.cerr(run.main_exc)}") from run.main_exc
-        if valid:
+        if state['valid']:
             run.beh('shape', sim.shape(),
                     [[o, e['byname'], [[f[0], f[-2]] for f in e.get('filters', [])]]
                      for o, e, _x, _y in sim.events])
